@@ -84,7 +84,7 @@ Lemma prepare_path_lemma s e h ks en id meta :
     run s (prepare_labels e (length (s_flights s)) id (e_nvals en) meta) = Some s' /\
     nth_error (s_execs s') e =
       Some (mkExec false h ks [en] 1 [Some (mkGot (e_stmt en) (length (s_flights s)) id (e_nvals en) meta)] PSent) /\
-    s_log s' = EvSend e false h ks [(e_stmt en, Some id, e_nvals en)]
+    s_log s' = EvSend e false h ks [(e_stmt en, Some (id, meta), e_nvals en)]
                  :: EvPrepared (length (s_flights s)) id (e_nvals en) meta
                  :: EvPrepare (length (s_flights s)) (mkTriple h ks (e_stmt en))
                  :: rev (gone_events 0 (snd (lru_add (s_max s) (s_cache s) (key_for (mkTriple h ks (e_stmt en))) (length (s_flights s)))))
@@ -140,7 +140,7 @@ Lemma reprepare_path_lemma s e h ks en id meta :
     run s (reprepare_labels e (length (s_flights s)) id (e_nvals en) meta) = Some s' /\
     nth_error (s_execs s') e =
       Some (mkExec false h ks [en] 1 [Some (mkGot (e_stmt en) (length (s_flights s)) id (e_nvals en) meta)] (PDone ROk)) /\
-    s_log s' = EvResult e ROk :: EvSend e false h ks [(e_stmt en, Some id, e_nvals en)]
+    s_log s' = EvResult e ROk :: EvSend e false h ks [(e_stmt en, Some (id, meta), e_nvals en)]
                  :: EvPrepared (length (s_flights s)) id (e_nvals en) meta
                  :: EvPrepare (length (s_flights s)) (mkTriple h ks (e_stmt en))
                  :: evs ++ EvCreate (length (s_flights s)) (key_for (mkTriple h ks (e_stmt en))) :: s_log s.
@@ -247,18 +247,18 @@ Proof. constructor; constructor. Qed.
 
 (* "never a foreign id" for statements: within one session the PREPARE that returned the id was a
    PREPARE of exactly that statement, keyspace and host *)
-Definition id_was_returned_for_statement (h : list event) (t : triple) (id : list Z) (nvals : Z) : Prop :=
-  exists f meta h1 h2 h3, h = h1 ++ EvPrepare f t :: h2 ++ EvPrepared f id nvals meta :: h3.
+Definition id_was_returned_for_statement (h : list event) (t : triple) (id : list Z) (meta nvals : Z) : Prop :=
+  exists f h1 h2 h3, h = h1 ++ EvPrepare f t :: h2 ++ EvPrepared f id nvals meta :: h3.
 
 Lemma sends_use_own_ids_lemma max n ks0 ls s :
   Forall (label_uniform n ks0) ls -> run (init max) ls = Some s ->
-  forall h1 h2 e b host ks items st id nv,
+  forall h1 h2 e b host ks items st id meta nv,
     rev (s_log s) = h1 ++ EvSend e b host ks items :: h2 ->
-    In (st, Some id, nv) items ->
-    id_was_returned_for_statement h1 (mkTriple host ks st) id nv.
+    In (st, Some (id, meta), nv) items ->
+    id_was_returned_for_statement h1 (mkTriple host ks st) id meta nv.
 Proof.
-  intros LU H h1 h2 e b host ks items st id nv E HI.
-  destruct (sends_use_returned_ids_lemma _ _ _ H _ _ _ _ _ _ _ _ _ _ E HI) as [f [t [meta [g1 [g2 [g3 [K R]]]]]]].
+  intros LU H h1 h2 e b host ks items st id meta nv E HI.
+  destruct (sends_use_returned_ids_lemma _ _ _ H _ _ _ _ _ _ _ _ _ _ _ E HI) as [f [t [g1 [g2 [g3 [K R]]]]]].
   pose proof (uniform_run n ks0 ls _ _ (uniform_init n ks0 max) LU H) as [_ _ U3].
   apply Forall_rev' in U3. rewrite E in U3. rewrite Forall_forall in U3.
   assert (U_send : event_uniform n ks0 (EvSend e b host ks items)) by (apply U3; apply in_or_app; right; left; reflexivity).
@@ -267,7 +267,7 @@ Proof.
   simpl in U_send, U_prep. destruct U_send as [A1 A2]. destruct U_prep as [B1 B2].
   assert (t = mkTriple host ks st).
   { apply key_for_injective_lemma; simpl; congruence. }
-  subst t. exists f, meta, g1, g2, g3. assumption.
+  subst t. exists f, g1, g2, g3. assumption.
 Qed.
 
 (* ---- UNPREPARED for a batch: the statement is found through the ids the batch collected ---- *)
